@@ -266,7 +266,7 @@ def _run_merge(case, np, ops, S):
 FORMS = {'a': 0, 'as': 1, 'f': 2, 'fs': 3}
 MAPKS = {'n': 0, 'a': 1, 'f': 2}
 IKINDS = {'kim': 0, 'kimlu': 1, 'kimbu': 2}
-VER = 1          # 1 = model of the repaired Session.ordered_merge_left; 0 = as found
+VER = int(__import__('os').environ.get('VERIF_C19_VER', '1'))   # 1 = model of the repaired Session.ordered_merge_left; 0 = as found
 
 
 def _enc_payloads(ps):
@@ -419,7 +419,9 @@ def from_val(case, v):
         return m, m
     if op == 'oml':
         if e is not None:
-            return e, (e if not dom or e == 'EXC:ValueError' else _oml_shape(case, spec, None))
+            # in the domain the specification is the join payload; the only admissible error there is the documented
+            # long-run ValueError of the streamed form, which spec_ok() accepts
+            return e, (_oml_shape(case, spec, None) if dom else e)
         m = [_opt(model[0]), _opt(model[1]), _opt(model[2])]
         return m, (_oml_shape(case, spec, m[2]) if dom else m)
     if op == 'omi':
